@@ -9,12 +9,15 @@ wt, sd, crate, tfile, tname = sys.argv[1:6]
 mode = sys.argv[6] if len(sys.argv) > 6 else "append"
 env = dict(os.environ); env.pop("RUST_BACKTRACE", None); env["CARGO_NET_OFFLINE"] = "true"
 
-def sh(cmd, **kw):
+def sh(cmd, timeout=None, **kw):
+    # a hanging test binary (the tako integration tests sometimes dead-lock on a loaded machine) must not block the queue
+    if timeout:
+        cmd = ['timeout', '-k', '10', str(timeout)] + cmd
     return subprocess.run(cmd, cwd=wt, env=env, stdout=subprocess.PIPE, stderr=subprocess.STDOUT, text=True, **kw)
 
 def baseline():
     base = json.load(open('/root/.vp/BASELINE.json')); stable = set(base['stable_pass'])
-    p = sh(['cargo', 'test', '--workspace', '--no-fail-fast', '--offline'])
+    p = sh(['cargo', 'test', '--workspace', '--no-fail-fast', '--offline'], timeout=1500)
     crate_, passed = None, set()
     for line in p.stdout.splitlines():
         m = re.search(r'Running (?:unittests )?\S+ \(target/debug/deps/([a-zA-Z0-9_]+)-[0-9a-f]+\)', line)
@@ -22,13 +25,20 @@ def baseline():
         m = re.match(r'test (\S+)(?: - should panic)? \.\.\. (ok|FAILED|ignored)', line)
         if m and crate_ and m.group(2) == 'ok': passed.add(f'{crate_}::{m.group(1)}')
     missing = sorted(stable - passed)
+    if len(missing) > 10:
+        for cr in sorted({m.partition('::')[0] for m in missing}):
+            q = sh(['cargo', 'test', '-p', cr, '--offline', '--lib', '--no-fail-fast', '--', '--test-threads=4'], timeout=1500)
+            for line in q.stdout.splitlines():
+                m = re.match(r'test (\S+)(?: - should panic)? \.\.\. ok', line)
+                if m: passed.add(f'{cr}::{m.group(1)}')
+        missing = sorted(stable - passed)
     # timing-sensitive tests fail on a loaded machine: re-run each missing test alone (up to 3 times)
     still = []
     for name in missing:
         cr, _, test = name.partition('::')
         ok = False
         for _ in range(3):
-            q = sh(['cargo', 'test', '-p', cr, '--offline', '--lib', test, '--', '--exact'])
+            q = sh(['cargo', 'test', '-p', cr, '--offline', '--lib', test, '--', '--exact'], timeout=300)
             if re.search(r'test result: ok\. 1 passed', q.stdout):
                 ok = True
                 break
@@ -44,7 +54,7 @@ def demo():
         else:
             k = orig.rstrip().rfind('}')
             open(path, 'w').write(orig[:k] + "\n" + test + "\n}\n")
-        p = sh(['cargo', 'test', '-p', crate, '--offline', '--lib', tname])
+        p = sh(['cargo', 'test', '-p', crate, '--offline', '--lib', tname], timeout=1200)
         m = re.search(r'test result: (\w+)\. (\d+) passed; (\d+) failed', p.stdout)
         ran = re.search(r'running (\d+) test', p.stdout)
         return (m.group(1), int(m.group(2)), int(m.group(3))) if m else ("BUILD-ERROR", 0, 0), p.stdout[-1500:]
